@@ -15,7 +15,9 @@ var osRedirects = map[string]string{
 	"os.Mkdir":                 "VMkdir",
 	"os.MkdirAll":              "VMkdirAll",
 	"os.Stat":                  "VStat",
-	"os.Lstat":                 "VStat",
+	"os.Lstat":                 "VLstat",
+	"os.Symlink":               "VSymlink",
+	"os.Readlink":              "VReadlink",
 	"os.SameFile":              "VSameFile",
 	"os.Remove":                "VRemove",
 	"os.RemoveAll":             "VRemoveAll",
